@@ -52,4 +52,27 @@ def specOK (r : Req) (res : Bytes) : Bool :=
          if untrustedWithin r.maxHops items.reverse then (xffUntrusted items).contains res else true
        | .single _ => true)
 
+/-! ## the third clause read literally, for every header order (round 2, review item C18-1) -/
+
+/-- a configured X-Forwarded-For header that names an untrusted address within the hop limit -/
+def xffNamesUntrusted (maxHops : Nat) : Hdr → Bool
+  | .xff items => untrustedWithin maxHops items.reverse
+  | .single _ => false
+
+/-- "never the address of a trusted proxy when X-Forwarded-For also names an untrusted address within the hop
+    limit" — whatever the configured header order: with a trusted peer, as soon as SOME configured X-Forwarded-For
+    names such an address, the result must not lie inside a trusted CIDR (`resTrusted`) -/
+def strictOK (r : Req) (resTrusted : Bool) : Bool :=
+  !(r.peerTrusted && r.hdrs.any (xffNamesUntrusted r.maxHops)) || !resTrusted
+
+/-- the class of inputs on which the documented header order and that clause pull apart (finding K18c): some
+    configured X-Forwarded-For names an untrusted address within the limit, but the FIRST configured header that
+    offers an address is another one (a single-valued header such as X-Real-IP placed before X-Forwarded-For, or an
+    earlier X-Forwarded-For entry that does not) -/
+def shadowed (r : Req) : Bool :=
+  r.peerTrusted && r.hdrs.any (xffNamesUntrusted r.maxHops) &&
+  (match r.hdrs.find? hdrOffers with
+   | some h => !xffNamesUntrusted r.maxHops h
+   | none => false)
+
 end Rivaas.RealIP
